@@ -372,8 +372,6 @@ func judge(c *engine.Ctx, f *fixture, cs *Case) {
 		return
 	}
 
-	got := resp.Status == 200
-
 	if strings.Contains(strings.ToUpper(cs.ReqPath), "%2F") && cs.Slashes == "" {
 		// encoded slash with the default setting off is rejected (C08); nothing to learn about matching
 		c.Outcome("encoded slash with setting off (not judged here)")
@@ -389,37 +387,68 @@ func judge(c *engine.Ctx, f *fixture, cs *Case) {
 
 	c.NontrivialN(1)
 
-	if got != want {
-		c.Violation(diagnose(cs, got, want), fmt.Sprintf("%+v: status %d, reference match=%v captures=%v", *cs, resp.Status, want, wantCaps), cs)
-
+	gotCaps, ok := verdict(c, cs, "", resp.Status == 200, resp.Header.Get("X-Cap"), want, wantCaps)
+	if !ok {
 		return
+	}
+
+	// the same request as Envoy hands it over (the request target as sent, in the path attribute): same rule, same captures
+	if cs.Part != "conditions" {
+		er := f.apps.DoEnvoy(&hx.Req{Method: cs.ReqMethod, Scheme: cs.ReqScheme, Host: cs.ReqHost, RawPath: cs.ReqPath})
+
+		c.Eval(1)
+
+		if er.ParseErr != nil {
+			c.Violation("request-not-parsable/envoy", fmt.Sprintf("%+v: %v", *cs, er.ParseErr), cs)
+
+			return
+		}
+
+		if _, ok := verdict(c, cs, "/envoy", er.Allowed, er.OkHeaders["X-Cap"], want, wantCaps); !ok {
+			return
+		}
 	}
 
 	if !want {
 		return
 	}
 
+	if c.WantSample() && len(wantCaps) > 1 && strings.Contains(cs.ReqPath, "%") {
+		c.Sample(map[string]any{"case": cs, "captures": gotCaps})
+	}
+}
+
+// verdict compares what one entry point answered with the reference; entry is the suffix of the signatures.
+func verdict(c *engine.Ctx, cs *Case, entry string, got bool, capHeader string, want bool, wantCaps map[string]string) (map[string]string, bool) {
+	if got != want {
+		c.Violation(diagnose(cs, got, want)+entry, fmt.Sprintf("%+v: matched=%v, reference match=%v captures=%v", *cs, got, want, wantCaps), cs)
+
+		return nil, false
+	}
+
+	if !want {
+		return nil, true
+	}
+
 	var gotCaps map[string]string
 
-	_ = json.Unmarshal([]byte(resp.Header.Get("X-Cap")), &gotCaps)
+	_ = json.Unmarshal([]byte(capHeader), &gotCaps)
 
 	if len(gotCaps) != len(wantCaps) {
-		c.Violation("captures-wrong/"+routeShape(cs), fmt.Sprintf("%+v: captures %v, reference %v", *cs, gotCaps, wantCaps), cs)
+		c.Violation("captures-wrong/"+routeShape(cs)+entry, fmt.Sprintf("%+v: captures %v, reference %v", *cs, gotCaps, wantCaps), cs)
 
-		return
+		return nil, false
 	}
 
 	for k, v := range wantCaps {
 		if !strings.EqualFold(gotCaps[k], v) || (gotCaps[k] != v && !strings.Contains(strings.ToUpper(v), "%2F")) {
-			c.Violation("captures-wrong/"+routeShape(cs), fmt.Sprintf("%+v: captures %v, reference %v", *cs, gotCaps, wantCaps), cs)
+			c.Violation("captures-wrong/"+routeShape(cs)+entry, fmt.Sprintf("%+v: captures %v, reference %v", *cs, gotCaps, wantCaps), cs)
 
-			return
+			return nil, false
 		}
 	}
 
-	if c.WantSample() && len(wantCaps) > 1 && strings.Contains(cs.ReqPath, "%") {
-		c.Sample(map[string]any{"case": cs, "captures": gotCaps})
-	}
+	return gotCaps, true
 }
 
 func routeShape(cs *Case) string {
@@ -586,7 +615,8 @@ func reqPaths() []string {
 		}
 	}
 
-	out = append(out, "/f", "/f/", "/f/v/", "/f/v/v/v", "/f//v")
+	// //v/foo, //f/v, //a/f/v: an empty first segment (a request target, not a reference with an authority)
+	out = append(out, "/f", "/f/", "/f/v/", "/f/v/v/v", "/f//v", "//v/foo", "//f/v", "//a/f/v", "//a/f/v/v")
 
 	return out
 }
